@@ -305,7 +305,8 @@ example (tx : Tx) (sm : AMap.T Nat Path) : CacheInv tx [] sm := CacheInv.nil tx 
     again in the same transaction) and use a read transaction and its bucket handles after its
     Rollback (`dead`, `deadVia`): every observable result of the model equals the specification's,
     up to the first operation that WRITES through the handle of a bucket that does not exist in
-    the transaction's view (out of contract; reads through such a handle are unspecified). -/
+    the write transaction's view (out of contract); READS through such a handle find an empty bucket
+    and nothing below it (`Spec.KV.staleRead`). -/
 theorem kv_refines_x (ops : List OpX) : RunsAgreeX ops (Model.KV.runX {} ops) (Spec.KV.runX {} ops) :=
   runX_sim deleteSpec ops {} {} SysRelX.init
 
@@ -337,7 +338,7 @@ example :
     Spec.KV.runX {} ops =
       [.ok, .ok, .ok, .ok, .ok, .ok, .ok,
        .bool true, .bool true, .val (some [2]),
-       .ok, .bool false, .unspecified,
+       .ok, .bool false, .val none,
        .ok, .bool true, .ok, .val (some [4]),
        .ok, .ok, .bool true, .ok, .err .released, .bool false] ∧
     Model.KV.runX {} ops =
@@ -400,6 +401,30 @@ theorem iter_write_ryw {tx : Tx} (h : tx.Inv) (hw : tx.readOnly = false) (b : Bu
   rw [iterW_ryw h hw _ _ hu]
   show _ = tx.commit.range (b.iterBounds st l).1 (b.iterBounds st l).2
   rw [hl]
+
+/-- `iter_write_exists` – the exact answer of "is there an entry in this range" asked through a
+    fresh iterator inside a write transaction (`ExistCreditFromTx`: `NewIterator(BytesPrefix(hash))`,
+    one `Next()`): it is `true` iff the read-your-writes view has an entry in the range, OR the
+    committed range is non-empty and this transaction has deleted every key of it (the only
+    deviation: a false positive; never a false negative). -/
+theorem iter_write_exists {tx : Tx} (h : tx.Inv) (hw : tx.readOnly = false) (b : Bucket) (st l lim : Bytes)
+    (hl : (b.iterBounds st l).2 = some lim) :
+    ((b.newIterator tx st l).next).2 = true ↔
+      ((b.newIterator tx.roView st l).rng ≠ [] ∨
+       (tx.db.range (b.iterBounds st l).1 (some lim) ≠ [] ∧
+        ∀ e ∈ tx.db.range (b.iterBounds st l).1 (some lim), (tx.b.get e.1).2 = true)) := by
+  rw [first_next_iff tx hw b st l lim hl, iterW_nonempty_iff h hw]
+  show _ ↔ (tx.commit.range (b.iterBounds st l).1 (b.iterBounds st l).2 ≠ [] ∨ _)
+  rw [hl]
+
+-- both branches occur: committed 1_a_a; (1) untouched: the view has it; (2) the transaction deleted it: false positive
+example :
+    let b : Bucket := { name := [97], path := [49, 95, 97], depth := 1 }
+    let tx1 : Tx := { readOnly := false, db := [([49, 95, 97, 95, 97], [1])], b := {} }
+    let tx2 : Tx := { readOnly := false, db := [([49, 95, 97, 95, 97], [1])], b := Batch.replay [.del [49, 95, 97, 95, 97]] }
+    ((b.newIterator tx1 [] []).next).2 = true ∧ (b.newIterator tx1.roView [] []).rng ≠ [] ∧
+    ((b.newIterator tx2 [] []).next).2 = true ∧ (b.newIterator tx2.roView [] []).rng = [] ∧ b.getByPrefix tx2 [] = [] := by
+  decide
 
 /-- two ways to meet the condition: nothing written yet (the wallet's removal step starts with such
     an iteration), or nothing written to a key of the range (writes to other buckets only) -/
